@@ -43,6 +43,8 @@ pub enum Op {
     Describe { m: usize, desc: usize, unit: bool },
     Render,
     Upkeep,
+    /// the mock clock moves forward by this many seconds (summary windows roll: 3 x 20 s by default)
+    Advance(u64),
 }
 
 #[derive(Clone, Debug, Serialize, Deserialize)]
@@ -139,7 +141,18 @@ impl Scenario for C07Prometheus {
         }
         for _ in 0..r.range(1, 2) {
             let n = r.range(1, 3);
-            threads.push((0..n).map(|_| if r.chance(750) { Op::Render } else { Op::Upkeep }).collect());
+            threads.push(
+                (0..n)
+                    .flat_map(|_| {
+                        let mut v = vec![];
+                        if r.chance(250) {
+                            v.push(Op::Advance(*r.pick(&[1u64, 25, 61, 200])));
+                        }
+                        v.push(if r.chance(750) { Op::Render } else { Op::Upkeep });
+                        v
+                    })
+                    .collect(),
+            );
         }
         Plan { cfg, threads }
     }
@@ -148,7 +161,7 @@ impl Scenario for C07Prometheus {
         let p = plan.clone();
         let h2 = hist.clone();
         let sim = simulate(sched, 250_000, move || {
-            let (clock, _mock) = quanta::Clock::mock();
+            let (clock, mock) = quanta::Clock::mock();
             let (rec, handle) = build(&p.cfg, clock.clone(), None);
             let rec = Arc::new(rec);
             let mut hs = vec![];
@@ -158,6 +171,7 @@ impl Scenario for C07Prometheus {
                 let handle = handle.clone();
                 let hist = h2.clone();
                 let clock = clock.clone();
+                let mock = mock.clone();
                 hs.push(dsim::spawn(&format!("w{}", ti + 1), move || {
                     quanta::with_clock(&clock, || {
                         let tid = dsim::tid();
@@ -184,6 +198,7 @@ impl Scenario for C07Prometheus {
                                 }
                                 Op::Render => text = handle.render(),
                                 Op::Upkeep => handle.run_upkeep(),
+                                Op::Advance(s) => mock.increment(std::time::Duration::from_secs(*s)),
                             }
                             let ret = dsim::step();
                             hist.lock().unwrap().push(Ev { tid, inv, ret, op, tag: tag.to_bits(), text });
@@ -265,7 +280,7 @@ impl Scenario for C07Prometheus {
         vec!["metrics_exporter_prometheus::{PrometheusBuilder, PrometheusRecorder, PrometheusHandle::render/run_upkeep}", "Registry + GenerationalAtomicStorage + Recency", "AtomicBucketInstant / AtomicBucket", "Distribution / DistributionBuilder / Histogram / RollingSummary", "formatting (key_to_parts, write_*_line)"]
     }
     fn stub_components(&self) -> Vec<&'static str> {
-        vec!["thread scheduler (dsim)", "quanta clock (mock, never advanced here)", "handle listings are sorted by key under the guard so that the render thread's lock order is seed-deterministic"]
+        vec!["thread scheduler (dsim)", "quanta clock (mock, advanced by the program's Advance steps)", "handle listings are sorted by key under the guard so that the render thread's lock order is seed-deterministic"]
     }
 }
 
